@@ -159,7 +159,7 @@ func c04Predicate(c *Ctx, ge *GuardEngine, ctors map[string]string) {
 	}
 	atoms := ge.ReturnAtoms(fn, 0)
 	leaf := "{consensus.elementLeaf}"
-	wantS := "phi(({consensus.ElementAccumulator}.Trees[len(" + leaf + ".StateElement.MerkleProof)] == call consensus.proofRoot(call (consensus.elementLeaf).hash(" + leaf + "), " + leaf + ".StateElement.LeafIndex, " + leaf + ".StateElement.MerkleProof))|const:false)"
+	wantS := "phi(({consensus.ElementAccumulator}.Trees[len(" + leaf + ".StateElement.MerkleProof)] == call consensus.proofRoot(" + leaf + ".StateElement.MerkleProof, call (consensus.elementLeaf).hash(" + leaf + "), " + leaf + ".StateElement.LeafIndex))|const:false)"
 	want := mustRe(pat(wantS))
 	ok := len(atoms) == 1 && (want.MatchString(atoms[0]) || want.MatchString(ge.pv.ExpandAll(atoms[0], wantS)))
 	c.Check(ok, "membership-predicate", "root-equality", c.P.Pos(fn.Pos()), ifElse(ok, "true only if Trees[len(proof)] == proofRoot(leaf)", "containsLeaf returns "+joinShort(atoms)+" — not 'stored root at height len(proof) equals the proof root, else false'"))
@@ -199,19 +199,34 @@ func c04Predicate(c *Ctx, ge *GuardEngine, ctors map[string]string) {
 		if wantSpent {
 			flag = "const:true"
 		}
-		wre := regexp.MustCompile(`^call \(consensus\.ElementAccumulator\)\.containsLeaf\(\{consensus\.ElementAccumulator\}, call (consensus\.\w+)\((\{types\.\w+\})(, nil)?(, (const:(?:true|false)))?\)\)$`)
+		wre := regexp.MustCompile(`^call \(consensus\.ElementAccumulator\)\.containsLeaf\(\{consensus\.ElementAccumulator\}, call (consensus\.\w+)\((.*)\)\)$`)
 		mm := wre.FindStringSubmatch(a)
 		okc := mm != nil
 		inner := a
 		if okc {
-			inner = mm[1] + "(" + mm[2] + mm[3] + mm[4] + ")"
+			// the constructor's arguments in any order: the element, an optional nil revision, an optional flag
+			elem, hasNil, gotFlag, other := "", false, "", 0
+			for _, arg := range splitTop(mm[2], ',') {
+				arg = strings.TrimSpace(arg)
+				switch {
+				case strings.HasPrefix(arg, "{types.") && strings.HasSuffix(arg, "}"):
+					elem = arg
+				case arg == "nil":
+					hasNil = true
+				case arg == "const:true" || arg == "const:false":
+					gotFlag = arg
+				default:
+					other++
+				}
+			}
+			inner = mm[1] + "(" + mm[2] + ")"
 			kind := ctorOf[mm[1]]
-			okc = kind != ""
+			okc = kind != "" && elem != "" && other == 0
 			if kind != "leaf/chainindex" && kind != "leaf/attestation" {
-				okc = okc && mm[5] == flag
+				okc = okc && gotFlag == flag
 			}
 			if kind == "leaf/filecontract" || kind == "leaf/v2filecontract" {
-				okc = okc && mm[3] == ", nil"
+				okc = okc && hasNil
 			}
 		}
 		c.Check(okc, "membership-predicate", "wrapper:"+m.Name(), c.P.Pos(m.Pos()), ifElse(okc, "= containsLeaf("+inner+")", "wrapper "+m.Name()+" evaluates "+a+": the spent/resolved flag or revision it hashes with does not match what its use requires ("+flag+", no revision)"))
@@ -247,7 +262,7 @@ func c04Parents(c *Ctx, ge *GuardEngine, ctors map[string]string) {
 			if cf.Callee == nil || FuncName(cf.Callee) != "(consensus.ElementAccumulator).containsLeaf" || len(cf.Args) < 2 {
 				continue
 			}
-			if strings.Contains(cf.Args[1], "("+want+")") || strings.Contains(cf.Args[1], "("+want+",") {
+			if regexp.MustCompile(`[(,] ?` + regexp.QuoteMeta(want) + `[,)]`).MatchString(cf.Args[1]) {
 				// the leaf must be built unspent / unrevised
 				if strings.Contains(cf.Args[1], "const:true") {
 					continue
